@@ -191,8 +191,8 @@ def mono_rule(c, res):
                         continue
                     # Gt(x, const) selecting x on the true side and a constant <= on the false side
                     t = cnd[0]
-                    if t[0] in ('Gt', 'Ge') and mono(t[1]) == UP and mono(t[2]) == CONST:
-                        continue
+                    if t[0] in ('Gt', 'Ge', 'Lt', 'Le') and {mono(t[1]), mono(t[2])} == {UP, CONST}:
+                        continue        # which side gets which alternative is decided by the max(ceil, 0) rule of formula_shape
                     okc = False
             r = UP if okc and UP in ms else (CONST if okc else UNK)
         memo[local] = r
@@ -210,6 +210,8 @@ def mono_rule(c, res):
             return mono(t[1]) if mono(t[1]) == CONST else UNK
         if h == 'cast':
             return mono(t[2])
+        if h in ('Not', 'Neg') and len(t) == 2:
+            return CONST if mono(t[1]) == CONST else UNK
         if h in ('Add', 'AddWithOverflow'):
             return comb(mono(t[1]), mono(t[2]))
         if h in ('Sub', 'SubWithOverflow'):
@@ -364,11 +366,26 @@ def formula_shape(c, res):
                 f1, f2 = strip_cast(prod[1]), strip_cast(prod[2])
                 crd = f1 if (isinstance(f1, tuple) and f1[0] == 'call' and f1[1].endswith('CodingRate::denom')) else f2
                 ratio = f2 if crd is f1 else f1
-                okn = isinstance(crd, tuple) and crd[0] == 'call' and crd[1].endswith('CodingRate::denom') and ratio[0] == 'phi'
+                okn = isinstance(crd, tuple) and crd[0] == 'call' and crd[1].endswith('CodingRate::denom')
                 if okn:
-                    defs = rules.defs_with_conditions(bf, ratio[1])
-                    vals = sorted('zero' if v == ('const', 0) else 'ceil' if (v[0] == 'call' and v[1].endswith('div_ceil')) else 'other' for v, cs, b_ in defs)
-                    okn = vals == ['ceil', 'zero'] and all(any(x[0][0] == 'Gt' and x[0][2] == ('const', 0) for x in cs) for v, cs, b_ in defs)
+                    # max(ceil, 0) in any spelling: Ord::max, or a selection where 0 is taken only if ceil <= 0 and ceil only if ceil >= 0
+                    def is_ceil(v):
+                        return isinstance(v, tuple) and v[:1] == ('call',) and v[1].endswith('div_ceil')
+                    kinds = set()
+                    for v, cs in rules.value_cases(bf, ratio):
+                        v = strip_cast(v)
+                        if isinstance(v, tuple) and v[:1] == ('call',) and v[1].endswith('::max') and sorted('ceil' if is_ceil(strip_cast(a_)) else 'zero' if strip_cast(a_) == ('const', 0) else '?' for a_ in v[2]) == ['ceil', 'zero']:
+                            kinds |= {'ceil', 'zero'}
+                        elif v == ('const', 0):
+                            cl = [y for x in cs if isinstance(x[0], tuple) and len(x[0]) == 3 for y in (x[0][1], x[0][2]) if is_ceil(strip_cast(y))]
+                            okn = okn and bool(cl) and rules.implies_order(cs, '<=', cl[0], ('const', 0))
+                            kinds.add('zero')
+                        elif is_ceil(v):
+                            okn = okn and rules.implies_order(cs, '<=', ('const', 0), v)
+                            kinds.add('ceil')
+                        else:
+                            okn = False
+                    okn = okn and kinds == {'ceil', 'zero'}
     res.require(okn, 'C16:time_on_air_us:payload-symbols', 'payload symbol count is not 8 + max(ceil(..), 0) * CR denominator: %s' % (term_str(np_)[:160] if np_ else None), bf.body.path,
                 'SPEC-SHAPE(n_payload)', instance='n_payload = 8 + max(ceil(num / den), 0) * (CR + 4)')
     dc = [(bb_, t_) for bb_, t_ in bf.calls() if callee_name(t_).endswith('time_on_air_us::div_ceil')]
@@ -385,6 +402,19 @@ def formula_shape(c, res):
                     out['PL'] = out.get('PL', 0) + c_
                 elif isinstance(a0, tuple) and a0[0] == 'call' and a0[1].endswith('SpreadingFactor::factor'):
                     out['SF'] = out.get('SF', 0) + c_
+                elif isinstance(a0, tuple) and a0[0] in ('field', 'Not', 'param') and (a0 == ('param', hp) or (a0[0] == 'field' and a0[2] == 'ldro') or (a0[0] == 'Not' and len(a0) == 2)):
+                    # `flag as i32`: the indicator of the flag itself (or of its negation)
+                    neg = a0[0] == 'Not'
+                    b0 = strip_cast(a0[1]) if neg else a0
+                    while isinstance(b0, tuple) and b0 and b0[0] in ('ref', 'deref') and len(b0) == 2:
+                        b0 = b0[1]
+                    if b0 == ('param', hp):
+                        nm = 'H' if neg else 'H-inverted'
+                    elif isinstance(b0, tuple) and b0[0] == 'field' and b0[2] == 'ldro':
+                        nm = 'DE-inverted' if neg else 'DE'
+                    else:
+                        nm = '?' + term_str(a0)[:20]
+                    out[nm] = out.get(nm, 0) + c_
                 elif isinstance(a0, tuple) and a0[0] == 'phi':
                     dl = rules.defs_with_conditions(bf, a0[1])
                     consts = sorted(v[1] for v, cs, b_ in dl if v[0] == 'const')
@@ -418,9 +448,15 @@ def tsym_shape(c, res):
             if s.k == 'assign' and s.rv.k == 'agg' and s.rv.d.get('adt', '').endswith('BaseBandModulationParams'):
                 fl = s.rv.d['fields']
                 t = term_of_operand(bf, s.rv.ops[fl.index('t_sym_us')])
-                ok = t[0] == 'Div' and t[1][0] == 'Mul' and rules.linear(t[1][2]) == ({}, 1000000) and t[1][1][0] == 'call' and t[1][1][1].endswith('::pow') \
-                    and t[1][1][2][0] == ('const', 2) and t[1][1][2][1][0] == 'call' and t[1][1][2][1][1].endswith('SpreadingFactor::factor') \
-                    and t[2][0] == 'call' and t[2][1].endswith('Bandwidth::hz')
+                def is_pow2_sf(x):
+                    x = rules.strip_widening(x)
+                    def is_sf(y):
+                        y = rules.strip_widening(y)
+                        return isinstance(y, tuple) and y[:1] == ('call',) and y[1].endswith('SpreadingFactor::factor')
+                    return (x[0] == 'call' and x[1].endswith('::pow') and x[2][0] == ('const', 2) and is_sf(x[2][1])) or \
+                        (x[0] in ('Shl', 'ShlUnchecked') and x[1] == ('const', 1) and is_sf(x[2]))
+                ok = t[0] == 'Div' and t[1][0] in ('Mul', 'MulWithOverflow') and t[2][0] == 'call' and t[2][1].endswith('Bandwidth::hz') and \
+                    ((rules.linear(t[1][2]) == ({}, 1000000) and is_pow2_sf(t[1][1])) or (rules.linear(t[1][1]) == ({}, 1000000) and is_pow2_sf(t[1][2])))
                 res.require(ok, 'C16:new:t_sym-shape', 'symbol time is not 2^SF * 1e6 / BW: %s' % term_str(t), short_site(bf, b.idx), 'SHAPE(t_sym)',
                             instance='t_sym_us = 2^sf.factor() * 1_000_000 / bw.hz()')
                 l = term_of_operand(bf, s.rv.ops[fl.index('ldro')])
